@@ -60,6 +60,7 @@ def run(ctx, progs):
     ctx.rule("CTOR1", "constructors: header = empty, storage never read")
     ctx.rule("REINT1", "slice-level reinterpretation only in reviewed functions, behind an emptiness guard")
     ctx.assumptions.append("INV1 leaves one store undecided: extend_from_slice `size + other.len()` under other.len() < N - size (needs arithmetic)")
+    ctx.rule("KIND1", "index-kind inference: physical positions and logical indices/lengths are never compared, and never stand in for each other")
     for cfg, prog in progs.items():
         if cfg == "default_dbg":
             acc1_beliefs(ctx, prog, cfg)
@@ -69,6 +70,9 @@ def run(ctx, progs):
         ctx.floor("ACC1", "helper call sites", eng.sites, 20, cfg)
         acc2(ctx, prog, cfg)
         acc2b(ctx, prog, cfg)
+        from .. import kinds
+
+        kinds.run(ctx, prog, cfg)
         inv1(ctx, prog, cfg)
         m = shared.run_mod1(prog)
         shared.report_requires(ctx, m, "MOD1", cfg)
